@@ -273,21 +273,33 @@ func rootParam(v ssa.Value) ssa.Value {
 
 func checkPlotOrder(c *Ctx, rule string, fn *ssa.Function, mapField string) {
 	name := fn.Name()
+	setBindCtx(fn) // helpers shared by the two passes are judged at this pass's call sites
 	ws := callsIn(fn, idWTW)
 	ss := callsIn(fn, idSync)
 	// checkpoint events: direct UpdateCheckpoint calls, and calls of a commit helper the reference tree
 	// does not have (sets the checkpoint from an argument, writes the header, syncs the file)
 	var us []ckptEvent
 	var ckStores []ckptStore
+	// what a recognised commit helper does inside is represented by the helper's call (below)
+	inCommitHelper := func(in ssa.Instruction) bool {
+		if in.Parent() == fn {
+			return false
+		}
+		_, is := commitHelper(in.Parent())
+		return is
+	}
 	for _, u := range callsIn(fn, idUpdCkpt) {
+		if inCommitHelper(u) {
+			continue
+		}
 		us = append(us, ckptEvent{site: u, file: recvPath(u) + "data."})
 	}
 	for _, a := range fieldAccesses(fn) {
-		if a.Kind == "store" && a.Type == tHashMap && a.Field == "checkpoint" {
+		if a.Kind == "store" && a.Type == tHashMap && a.Field == "checkpoint" && !inCommitHelper(a.In) {
 			ckStores = append(ckStores, ckptStore{in: a.In, val: a.In.(*ssa.Store).Val})
 		}
 	}
-	allInstrs(fn, func(in ssa.Instruction) {
+	allInstrsNew(fn, func(in ssa.Instruction) {
 		cl, ok := in.(*ssa.Call)
 		if !ok {
 			return
@@ -762,6 +774,7 @@ func checkC07(c *Ctx) Meta {
 }
 
 func checkGetProofForward(c *Ctx, f *ssa.Function, label string) {
+	setBindCtx(f)
 	key := label + ".getProof:forwards-proof-and-error"
 	gps := callsIn(f, "("+pkgMassDB+".MassDB).GetProof")
 	if len(gps) == 0 {
@@ -804,6 +817,7 @@ func checkGetProofForward(c *Ctx, f *ssa.Function, label string) {
 
 // checkValidFilter: getValidProofs appends an element only on the edge where its Error == nil.
 func checkValidFilter(c *Ctx, rule string, f *ssa.Function) {
+	setBindCtx(f)
 	key := "miner.getValidProofs:keeps-only-error-nil"
 	var tests []nilTest
 	for _, a := range fieldAccesses(f) {
